@@ -517,6 +517,16 @@ struct Visitor : RecursiveASTVisitor<Visitor> {
     } else {
       O["callee"] = "";
       O["callee_text"] = text(CE->getCallee());
+      QualType CT = CE->getCallee()->getType();
+      if (CT->isPointerType())
+        CT = CT->getPointeeType();
+      if (const auto *FPT = CT->getAs<FunctionProtoType>()) {
+        json::Array PC;
+        for (QualType PT : FPT->param_types())
+          PC.push_back((PT->isPointerType() || PT->isReferenceType()) &&
+                       PT->getPointeeType().isConstQualified());
+        O["proto_pointee_const"] = std::move(PC);
+      }
     }
     if (auto *MC = dyn_cast<CXXMemberCallExpr>(CE)) {
       json::Value R = rootOf(MC->getImplicitObjectArgument());
